@@ -6,10 +6,12 @@ SRC=$1; ID=$2
 W=/tmp/confirm_${ID}_$$
 git -C /repo worktree add --detach "$W" HEAD -q >/dev/null 2>&1
 DEMO=$(ls "$SRC"/demo*.py | head -1)
-cd "$W"
-PYTHONPATH="$W" PYTHONHASHSEED=0 timeout 600 /venv/bin/python "$DEMO" > /tmp/confirm_${ID}_head.out 2>&1; rc_head=$?
-git apply "$SRC/patch.diff" || { echo "PATCH DOES NOT APPLY"; git -C /repo worktree remove --force "$W"; exit 2; }
-PYTHONPATH="$W" PYTHONHASHSEED=0 timeout 600 /venv/bin/python "$DEMO" > /tmp/confirm_${ID}_mut.out 2>&1; rc_mut=$?
+NEUTRAL=$(mktemp -d /tmp/confirm_cwd.XXXXXX)   # demos must not pick up the checkout's own setup.cfg (intersphinx, no network)
+cd "$NEUTRAL"
+PYTHONPATH="$W" PYTHONHASHSEED=0 timeout 900 /venv/bin/python "$DEMO" > /tmp/confirm_${ID}_head.out 2>&1; rc_head=$?
+git -C "$W" apply "$SRC/patch.diff" || { echo "PATCH DOES NOT APPLY"; git -C /repo worktree remove --force "$W"; exit 2; }
+PYTHONPATH="$W" PYTHONHASHSEED=0 timeout 900 /venv/bin/python "$DEMO" > /tmp/confirm_${ID}_mut.out 2>&1; rc_mut=$?
+cd /; rm -rf "$NEUTRAL"
 base=$(/verif/tools/baseline.sh "$W" | head -3)
 echo "$ID demo_on_head=$rc_head demo_with_patch=$rc_mut | $base"
 ok=0
